@@ -47,7 +47,7 @@ LEVEL_NOTE = "Interleavings are sampled, not enumerated; single-threaded asyncio
 ASSUMPTIONS = [
     "Data Secure APDUs are excluded (C17/C18); no keyring is loaded",
     "frames with undefined TPCI codes for their address type, unsupported / malformed APDUs, or a non-zero extended frame format are only required to cause no exception and at most one delivery",
-    "T_Data_Tag_Group: at most one delivery and no exception (the statement does not place it)",
+    "T_Data_Tag_Group (group or 0/0/0 destination) is not a T_Data_Group frame: it never reaches the telegram queue; at most one delivery overall and no exception",
     "'handed to the interface' = the call of the interface's send_cemi for that frame; send_cemi raises only CommunicationError / ConversionError",
     "a confirmation arriving exactly at the instant the confirmation timeout fires may go either way",
     "when sends overlap, any confirmation that arrived after a send's own hand-off may complete it (the statement speaks of 'a confirmation frame'); the completeness clause (positive confirmation in time => success) is asserted for a confirmation that arrives while the send is waiting (after its hand-off returned), and for one that arrives during its hand-off only if no other send is handed over before that hand-off returns",
@@ -123,7 +123,7 @@ def expected(spec: dict, own: int) -> str:
     if k == "group":
         return "queue"
     if k == "tag_group":
-        return "lenient"
+        return "not-queue"  # not a T_Data_Group frame: never a telegram for the queue / devices; at most one delivery
     if k == "broadcast":
         return "mgmt"
     return "mgmt" if spec["dst"] == own else "none"
@@ -237,7 +237,9 @@ def judge_frames(ctx, specs: list[dict], own: int, obs: list[dict], escaped: lis
             ctx.fail(f"C14:route:{kind}-frame-" + ("not-to-management" if m == 0 else "to-management-twice" if m > 1 else "also-queued"), one, where)
         elif exp == "none" and (q or m):
             ctx.fail("C14:route:foreign-p2p-frame-delivered" if spec["kind"] == "ldata" and not spec["group"] else "C14:route:unexpected-delivery", one, where)
-        elif exp == "lenient" and q + m > 1:
+        elif exp == "not-queue" and q:
+            ctx.fail("C14:route:tag-group-frame-queued", one, where)
+        elif exp in ("lenient", "not-queue") and q + m > 1:
             ctx.fail("C14:route:delivered-more-than-once", one, where)
         elif exp in ("queue", "mgmt"):
             want_dst = (spec["dst"], "GroupAddress" if spec["group"] else "IndividualAddress", spec.get("src", SRC), True)
